@@ -445,9 +445,10 @@ namespace BitSerializer::Convert::Detail
 
 		// Based on Howard Hinnant's algorithm
 		static_assert(sizeof(int) >= 4, "This algorithm has not been ported to a 16 bit integers");
-		auto const z = days + 719468ll;
-		auto const era = (z >= 0 ? z : z - 146096) / 146097;
-		auto const doe = static_cast<unsigned>(z - era * 146097);				// [0, 146096]
+		// The shift of epoch is applied to the remainder (the sum `days + 719468` would overflow at the end of the 64-bit range)
+		auto const z = days % 146097 + 719468ll;								// [-146096 + 719468, 146096 + 719468]
+		auto const era = days / 146097 + z / 146097;
+		auto const doe = static_cast<unsigned>(z % 146097);						// [0, 146096]
 		auto const yoe = (doe - doe / 1460 + doe / 36524 - doe / 146096) / 365;	// [0, 399]
 		auto const y = yoe + era * 400;
 		auto const doy = doe - (365 * yoe + yoe / 4 - yoe / 100);				// [0, 365]
